@@ -288,7 +288,8 @@ PROPS["C05"] = {
                  + [H("c05::" + n, "quick", 600, what="cuts inside a header, unit level") for n in ["c05_hdr_std_all_4_8", "c05_hdr_std_weid_4_8", "c05_hdr_ext_5_10"]]
                  + [H("c05::" + n, "thorough", 3600, what="cuts inside a header, unit level") for n in ["c05_hdr_std_min_0_4", "c05_hdr_std_all_0_4",
                     "c05_hdr_std_all_8_12", "c05_hdr_std_all_12_16", "c05_hdr_ext_0_5"]]
-                 + [H("c02d::c02d_standard_header_all_bytes", "thorough", 1800), H("c02d::c02d_extended_header_all_bytes", "thorough", 1800)],
+                 + [H("c02d::c02d_standard_header_all_bytes", "thorough", 1800), H("c02d::c02d_extended_header_all_bytes", "thorough", 1800)]
+                 + [H("c05::c05_whole_verbose_bool_cut_20", "thorough", 900, what="whole-message cut inside the extended header (cuts inside the standard header and inside a verbose payload were re-measured: 900 s timeout each)")],
 }
 
 PROPS["C07"] = {
@@ -341,7 +342,9 @@ PROPS["C16"] = {
     "outside": 'dialect variants outside the list; shapes outside the catalogue',
     "assumptions": COMMON_ASSUME + ['std::fmt::format stubbed (messages not compared)', 'core::str::from_utf8 replaced by a byte-wise model checked against std (c19_utf8_model_vs_std)', 'ids, names, units and string contents are literals in whole-message harnesses (whether a byte is NUL is control for the parser); arbitrary contents are decided in C19 / c02d', 'forward_to_next_storage_header replaced by its specification (first occurrence) in whole-message storage-mode harnesses; the real function is checked against that specification in C06'],
     "trusted_base": ['reference encoder kani/src/refcodec.rs + shapes.rs (reading of the AUTOSAR layout)'],
-    "harnesses": [H("c16::" + n, "quick", 900) for n in ["c16_bool_tyle_1", "c16_bool_tyle_15", "c16_u32_reserved_bits", "c16_raw_fixp_flag", "c16_id_bytes_after_nul", "c16_name_unit_length_zero"]]
+    "harnesses": [H("c16::" + n, "quick", 900) for n in ["c16_bool_tyle_1", "c16_bool_tyle_15", "c16_u32_reserved_bits", "c16_raw_fixp_flag", "c16_id_bytes_after_nul"]]
+                 + [H("c16::c16_name_unit_length_zero", "quick", 900, allow_unsat_covers=["dialect form parsed to the canonical value"],
+                      what="name / unit length fields of 0: IF accepted, the same value as the canonical form (a refusal would not violate the property)")]
                  + [H(n, "quick", 900, what="W / P half of the composition (shared with C01 / C02 / C14)") for n in _c16_wp_quick]
                  + [H(e["name"], "thorough", 900) for e in _cat["w_arg"] + _cat["p_arg"] if e["name"] not in _c16_wp_quick]
                  + [H("c02w::" + n, "thorough", 900) for n in _wq + _wt if "c02w::" + n not in _c16_wp_quick]
